@@ -1,12 +1,14 @@
-import MiniconfVerif.Lemmas.IterEnum
+import MiniconfVerif.Lemmas.IterRoot
+import MiniconfVerif.Lemmas.Factor
 
 /-! # C11 — rooted and depth-limited iteration is exact, finite and fused
 
 Proved here: fusedness for every state; exactness, termination and the exact-size counter for
 iteration from the tree root with a depth limit `D ≥ max_depth` and a target that does not
-run out of capacity (from the enumeration theorem of C03).  Roots below the tree root, depth
-limits below `max_depth` and targets without capacity are covered by the correspondence and
-oracle runs only (see DESIGN.md §11.3). -/
+run out of capacity (from the enumeration theorem of C03); exactness of iteration rooted at any
+node given by any key (simulation: the rooted iterator is the subtree's iterator with the root
+path prefixed and all depths shifted).  Depth limits below `max_depth` and targets without
+capacity are covered by the correspondence and oracle runs only (see DESIGN.md §11.3). -/
 namespace MiniconfVerif.C11
 open MiniconfVerif
 
@@ -40,6 +42,49 @@ theorem full_depth_exact (s : Schema) (hwf : s.WF) (hsm : s.Small) (D : Nat) (hD
   rcases hm' with ⟨_, _, h1⟩ | ⟨_, h2⟩
   · cases h1
   · cases h2
+
+/-- **Rooted iteration is exact**, for a root given by *any* key source: if `root(keys)` succeeds
+it has selected the node at some path `c`; polling then yields exactly the leaves at or below
+that node in order — each with its full depth and the target transcoded along the full path —
+and `None` for ever after. -/
+theorem rooted_exact (s : Schema) (hwf : s.WF) (hsm : s.Small) (D : Nat) (hD : s.maxDepth ≤ D)
+    (fresh : Target) (hacc : Accepts s fresh) (ks : KeySrc) (it : IterSt) (hroot : IterSt.withRoot s D ks = .ok it) :
+    ∃ c t0, s.at? c = some t0 ∧ it.root = c.length ∧ ∀ n,
+      it.poll s D fresh n =
+        ((t0.leaves.map fun p => Polled.item (.node (tgtAt s fresh (c ++ p)) (.leaf (p.length + c.length)))) ++
+          List.replicate n Polled.finished).take n := by
+  have har : ∀ q u, s.at? q = some u → u.arity ≤ (2 ^ 64 - 1) + 1 := fun q u h => by
+    have := hsm q u h; omega
+  have haccI := accepts_idx s D (2 ^ 64 - 1) hD har
+  obtain ⟨c, t0, ks', h1, h2, h3⟩ := transcode_factor s hwf _ haccI ks
+  have htg := tgtAt_idx s D (2 ^ 64 - 1) hD har c t0 h1
+  rw [htg] at h3
+  have hdep := at?_depth c s t0 h1
+  -- `root()` succeeded, so the lookup reported a node, and then it is the node at `c`
+  have hkind : ∀ d, ((Res.incrN c.length (stopAt t0 ks')).toNode = .leaf d ∨
+      (Res.incrN c.length (stopAt t0 ks')).toNode = .internal d) → d = c.length := by
+    intro d hd
+    have := stop_node_kind t0 ks' c.length h2 d hd
+    rw [this] at hd
+    cases hl : t0.isLeaf <;> simp [hl] at hd <;> omega
+  have hit : it = liftSt c (IterSt.init (D - c.length)) := by
+    cases hk : (Res.incrN c.length (stopAt t0 ks')).toNode with
+    | err e =>
+      unfold IterSt.withRoot at hroot
+      rw [h3, hk] at hroot
+      cases hroot
+    | leaf d =>
+      have := withRoot_eq s hwf hsm D hD ks c (.leaf d) ⟨d, Or.inl rfl⟩ (by rw [h3, hk])
+        (fun d' hd' => hkind d' (by rw [hk]; exact hd')) (by omega)
+      rw [this] at hroot; cases hroot; rfl
+    | internal d =>
+      have := withRoot_eq s hwf hsm D hD ks c (.internal d) ⟨d, Or.inr rfl⟩ (by rw [h3, hk])
+        (fun d' hd' => hkind d' (by rw [hk]; exact hd')) (by omega)
+      rw [this] at hroot; cases hroot; rfl
+  refine ⟨c, t0, h1, by rw [hit]; simp [liftSt, IterSt.init], ?_⟩
+  intro n
+  rw [hit]
+  exact poll_rooted s hwf hsm D hD fresh hacc c t0 h1 n
 
 /-- `ExactSize`: the wrapper's counter, started at `Metadata::count`; it depends on the inner
 iterator only through what `next()` returns.  `none` = the overflow-checked `count -= 1`
